@@ -25,6 +25,10 @@ try:                      # component part: the timing CU's vector memory path (
     import c02vmem
 except ImportError:
     c02vmem = None
+try:                      # component part: the timing CU's scalar memory path and LDS path (spec/cumem)
+    import c02cumem
+except ImportError:
+    c02cumem = None
 
 LEVEL = 'exploration'
 RULE = ('case = one program (shipped workload, size tuple, architecture) run once in emulation and once on a timing platform '
@@ -217,6 +221,8 @@ def run(ctx, selftest=False):
     thorough = ctx.tier == 'thorough'
     if c02vmem is not None:
         c02vmem.run_component(ctx)
+    if c02cumem is not None:
+        c02cumem.run_component(ctx)
     drv = ctx.go_build('sysrun')
     progs, sampled = programs(ctx, thorough)
     if not thorough:
@@ -305,8 +311,8 @@ def run(ctx, selftest=False):
                     'wavefronts_compared': wf, 'instructions_compared': ins, 'programs': len(progs),
                     'knob_sets': KNOBS})
     ctx.assumptions += [
-        'differential oracle (emulation = reference); shipped kernels only - generated kernels over the instruction subset are not built '
-        '(no assembler in the harness), so instructions no shipped kernel uses (flat_load_ushort/sbyte, s_load_dwordx16) are not exercised',
+        'system part: differential oracle (emulation = reference) over shipped kernels; instructions no shipped kernel uses '
+        '(flat_load_ushort/sbyte, s_load_dwordx16, most LDS forms) are exercised by the component parts vmem / cumem with hand-encoded kernels',
         'knobs not reachable through the public GPU builders are not varied: register scoreboard, wavefront pool size, VGPR count, '
         'vector memory pipeline shape, L1 sizes (shaderarray.Builder options that r9nano/mi300a builders do not forward)',
         'final memory = every live buffer of the context read back with Driver.MemCopyD2H after the run (flushes the caches) '
@@ -321,6 +327,8 @@ def replay(ctx, path):
     rp = json.load(open(path))['replay']
     if c02vmem is not None and isinstance(rp.get('driver'), dict) and rp['driver'].get('cmd') == 'c02vmem':
         return c02vmem.replay_component(ctx, path)
+    if c02cumem is not None and isinstance(rp.get('driver'), dict) and rp['driver'].get('cmd') == 'c02cumem':
+        return c02cumem.replay_component(ctx, path)
     drv = ctx.go_build('sysrun')
     c = rp['case']
     e = c01.run_case(ctx, drv, 'rp_e', dict(c, c=emu_class(c['c']['arch']), knobs=''), extras('e'), verify=False, keep=('insts.json',))
